@@ -182,8 +182,8 @@ def fsqrt(fr):
 
 
 # tolerance constants: calibrated on the unchanged tree (see DESIGN.md C19), x30 margin
-K_MEAN = 64.0
-K_VAR = 256.0
+K_MEAN = 16.0
+K_VAR = 32.0
 
 
 def rs_tolerances(sh):
@@ -244,7 +244,11 @@ def _rs_update_post(self, x):
     _bump("RunningStatistics.update")
     sh = _rs_shadow(self)
     sh.add(x)
-    for msg in judge_running_statistics(self, sh):
+    try:
+        msgs = judge_running_statistics(self, sh)
+    except Exception as e:      # reading the object's own attributes raised
+        msgs = ["reading the statistics after %d updates raised %r" % (sh.n, e)]
+    for msg in msgs:
         RECORDS.append({"contract": "RunningStatistics.update", "msg": msg, "witness": {"n": sh.n, "x": repr(x)}})
     return True
 
@@ -257,7 +261,7 @@ def _rc_shadow(self):
     return ent[1]
 
 
-K_COV = 256.0
+K_COV = 32.0
 
 
 def judge_running_covariance(rc, sh):
@@ -288,7 +292,11 @@ def _rc_update_post(self, x, y):
     _bump("RunningCovariance.update")
     sh = _rc_shadow(self)
     sh.add(x, y)
-    for msg in judge_running_covariance(self, sh):
+    try:
+        msgs = judge_running_covariance(self, sh)
+    except Exception as e:
+        msgs = ["reading the covariance after %d updates raised %r" % (sh.n, e)]
+    for msg in msgs:
         RECORDS.append({"contract": "RunningCovariance.update", "msg": msg,
                         "witness": {"n": sh.n, "x": repr(x), "y": repr(y)}})
     return True
